@@ -36,10 +36,15 @@ LEVEL = {'text': 'Machine-checked theorems over unbounded inputs (Props/C09.v, n
                  '(C09_views_agree_symbols).  For every image satisfying seg_consistent_b (no SHT_DYNAMIC section at the offset of '
                  'PT_DYNAMIC: headers absent, or ANOTHER array elsewhere linked to ANOTHER string table) the DynamicSegment yields '
                  'the segment\'s own entries with the strings of the table its own DT_STRTAB/DT_STRSZ designate '
-                 '(C09_segment_view_alone).  NOT Coq theorems, pinned by correspondence only: get_symbol_by_name (the model is a '
+                 '(C09_segment_view_alone).  Histories on ONE object: the stateful model of Dynamic (the _num_tags cache _get_tag consults, '
+                 'the suspended _iter_tags generators) answers EVERY interleaving of walks advanced one tag at a time, num_tags() '
+                 'and get_tag(n) exactly as the reference for which the array is a fixed list (C09_history_exact, invariant lifted '
+                 'over the run); the implementation is run on drawn histories against that model and against the stateless answers '
+                 '(walk interrupted by num_tags / get_tag / num_symbols / iter_symbols / get_table_offset / get_relocation_tables '
+                 '/ a second walk, then resumed).  NOT Coq theorems, pinned by correspondence only: get_symbol_by_name (the model is a '
                  'filter over the proved symbol list; the implementation is asked for names carried by several symbols first thing '
                  'on a fresh object, again after a miss and a second time on the same object, on images with real GNU/SysV hash '
-                 'tables), the DynamicSection view of the foreign form, num_tags()/get_tag(n) for n below the count (the same reads as the iterator), the '
+                 'tables), the DynamicSection view of the foreign form, the '
                  'segment-of-the-original view of symbols, and the nearest-pointer heuristic used without hash tables (outside '
                  'the property: it cannot give the true count in general).  '
                  'The hand model is pinned to dynamic.py/hash.py/elffile.py by differential runs on synthesized images in four '
@@ -59,7 +64,8 @@ RULE = ('cases: synthesized dynamic images (both classes/byte orders; common, MI
         'another one, get_symbol_by_name is asked first thing on a fresh object and again after a miss; a HISTORY per case and view on '
         'ONE object: a tag walk (with or without type filter) is started, k tags taken, then num_tags / get_tag(n) / num_symbols / '
         'iter_symbols / get_table_offset / get_relocation_tables / a second walk are put to the same object and the first walk '
-        'resumed to its end - all answers must be the stateless ones; every observation of the '
+        'resumed to its end - all answers must be the stateless ones; the walks / num_tags / get_tag part of the history is also run one '
+        'tag at a time against the stateful Coq model (hrun) and its reference (rrun); every observation of the '
         'implementation is bounded by a 10 s timer; a malformed stream (no terminator, unmapped pointers, bad links, bad indices) is '
         'out of domain; plus the seed libraries.  distinct = hash(kind, abstract); non-trivial = more than 3 tags or a hash '
         'table or a relocation table')
@@ -933,6 +939,60 @@ def _history_expected(core_v, sym_v, hist, tags, view, in_sym):
     return ['ok', [walk(tsel), answers]]
 
 
+RAW_NAMES = ['DT_NEEDED', 'DT_NULL', 'DT_STRTAB', 'DT_SONAME', 'DT_SYMTAB', 'DT_FLAGS_1']
+
+
+def _raw_program(hist):
+    """the part of a history the stateful Coq model speaks about (Model hstep): walks started and advanced one
+    tag at a time, num_tags(), get_tag(n) - as driver requests"""
+    tsel, k, ops = hist
+    def ty(ts):
+        if ts is None:
+            return 0
+        return ts[1] if ts[0] == 'name' else RAW_NAMES[ts[1] % len(RAW_NAMES)]
+    prog = [['start', ty(tsel)]] + [['next', 0]] * k
+    walks = 1
+    for op in ops:
+        if op[0] == 'walk':
+            prog += [['start', ty(op[1])]] + [['next', walks]] * 3
+            walks += 1
+        elif op[0] == 'get_tag':
+            prog.append(['get_tag', op[1] % 12])
+        else:
+            prog.append(['num_tags'])
+        prog.append(['next', 0])
+    prog += [['next', 0]] * 40 + [['next', j] for j in range(1, walks) for _ in range(40)]
+    return prog
+
+
+def _raw_history_impl(make, prog):
+    def raw(t):
+        return ['tag', t.entry.d_tag, t.entry.d_val]
+    def run():
+        d = make()
+        walks = []
+        out = []
+        for op in prog:
+            if op[0] == 'start':
+                walks.append(d.iter_tags(op[1]) if op[1] != 0 else d.iter_tags())
+                out.append('started')
+            elif op[0] == 'next':
+                try:
+                    out.append(raw(next(walks[op[1]])))
+                except StopIteration:
+                    out.append('stop')
+            elif op[0] == 'num_tags':
+                out.append(['num', d.num_tags()])
+            else:
+                try:
+                    out.append(raw(d.get_tag(op[1])))
+                except IndexError:
+                    out.append(['err', 'IndexError'])
+        return out
+    r = _ok(run)
+    return r[1] if r[0] == 'ok' else r
+
+
 def _history_mask(impl, spec):
     """answers the spec does not speak about (symbols outside sym_consistent_b) are not compared"""
     if impl[0] != 'ok' or spec[0] != 'ok':
@@ -1156,6 +1216,12 @@ def evaluate(ctx, cases):
         reqs.append(['wf', wk['img']])
         reqs.append(['wf', wk['img2']])
         reqs.append(['stripped_of', wk['img'], wk['img2']])
+        wk['hist'] = (_d(wk['a']).get('hist') if wk['kind'] == 'img' else (wk['a'][1] if len(wk['a']) > 1 else None))
+        if wk['hist'] is not None:
+            wk['prog'] = _raw_program(wk['hist'])
+            reqs.append(['history', wk['img'], False, wk['prog']])
+            reqs.append(['history', wk['img'], True, wk['prog']])
+            reqs.append(['history', wk['img2'], True, wk['prog']])
         if wk['kind'] == 'img':
             A = wk['P'].A
             es = [[_signed(e[0], 8 if A['is64'] else 4), e[1]] for e in wk['P'].ents + wk['P'].extras]
@@ -1169,6 +1235,7 @@ def evaluate(ctx, cases):
         wf = next(ans)
         wf2 = next(ans)
         so = next(ans)
+        rawh = [next(ans), next(ans), next(ans)] if wk['hist'] is not None else None
         kind, a = wk['kind'], wk['a']
         M1 = _split_model(m1)
         M2 = _split_model(m2)
@@ -1262,6 +1329,19 @@ def evaluate(ctx, cases):
                 if hi != hs and hkey is None:
                     hkey = ['section', 'segment', 'segment-stripped'][vi] + ('/walk' if hi[0] != 'ok' or hi[1][0] != hs[1][0] else '/answers')
                 H_impl.append(hi); H_spec.append(hs); H_model.append(hm)
+            # the same object questions, one tag at a time, against the STATEFUL Coq model (hrun) and its reference (rrun)
+            R_impl, R_spec, R_model = [], [], []
+            rkey = None
+            for vi, mk in enumerate([mk1[0], mk1[1], mk2[1]]):
+                m = rawh[vi]
+                if not (isinstance(m, list) and len(m) == 2 and m[0] != 'err' and isinstance(m[1], list) and (not m[1] or m[1][0] != 'err')):
+                    continue
+                ri = _raw_history_impl(mk, wk['prog'])
+                if ri != m[1] and rkey is None:
+                    rkey = ['section', 'segment', 'segment-stripped'][vi] + '/raw'
+                R_impl.append(ri); R_spec.append(m[1]); R_model.append(m[0])
+            ctx.record(kind + '-rawhistory', a, impl=R_impl, spec=R_spec, model=R_model, in_domain=True, nontrivial=nt,
+                       key=('hist:' + rkey) if rkey else 'rawhist')
             ctx.bump('history', str(hist[2][0][0]) if hist[2] else 'none')
             ctx.record(kind + '-history', a, impl=H_impl, spec=H_spec, model=H_model, in_domain=True, nontrivial=nt,
                        key=('hist:' + hkey) if hkey else 'hist')
